@@ -860,6 +860,9 @@ def run(tier, seed, replay=None, keep=False):
     t0 = time.time()
     work = vlib.workdir("c02-%d" % os.getpid())
     try:
+        if replay and json.load(open(replay)).get("scenario", {}).get("kind") == "solver":
+            from checks import solver_common as scx
+            return scx.replay(PROP, json.load(open(replay)), tier, seed, work)
         methods = methods_for(replay)
         radau = len(methods) == len(tg.METHODS)          # not when a replay file restricts the run to one explicit method
         use_private_tmp(work)
@@ -935,6 +938,14 @@ def run(tier, seed, replay=None, keep=False):
         # 4. contract evaluation by TLC
         r, bad = tlc_validate(facts, work, PROP)
         viols = make_violations(PROP, bad)
+        # recorded low-level runs (Trace_Stepper relation C02/equal_low): the solver called without a callback takes the
+        # same steps as with a passive one (a first stage that is only refreshed inside the callback handling is order 1)
+        lowcov = {}
+        if not replay:
+            from checks import solver_common as scx
+            sviol, scov, _a = scx.run_for(PROP, tier, seed, work)
+            viols += sviol
+            lowcov = {"runs": scov.get("runs"), "pairs": scov.get("pairs"), "per_family": scov.get("per_family")}
         n_new, n_known = vlib.report(PROP, viols)
         for d in drift:
             vlib.log("[C02] drift: " + d)
